@@ -282,8 +282,8 @@ def check_c19(run):
                                                       ("ws://224.0.0.", ""), ("http://169.254.", ".1:8"), ("file://10.", "/p")], invariants=["PtrOk", "GettersInv"]))
     run_parse_families(run, fams, keys="derived,hostname,port,href")
     # the same accessors under a parser with another special-scheme table ("the URL is special" is relative to its parser)
-    gstarts = ["gopher://0x7f.1/", "gopher://h:70/x", "http://1.2.3.4:70/", "gopher://[::1]:7/", "x://1.2.3.4/", "file://1.2.3.4/p"]
-    gops = [("protocol", v) for v in ("gopher", "http", "x", "file")] + [("host", v) for v in ("5.6.7.8", "h2", "[::2]:70", "0x10.1:80")] + [("port", v) for v in ("70", "", "0", "80")]
+    gstarts = ["gopher://0x7f.1/", "gopher://h:70/x", "http://1.2.3.4:70/", "gopher://[::1]:7/", "x://1.2.3.4/", "file://1.2.3.4/p", "ipfs://h:0/x", "http://h:0/"]
+    gops = [("protocol", v) for v in ("gopher", "http", "x", "file", "ipfs")] + [("host", v) for v in ("5.6.7.8", "h2", "[::2]:70", "0x10.1:80")] + [("port", v) for v in ("70", "", "0", "80")]
     for pname in ("special_gopher", "special_nofile"):
         fam = ApiFamily("derived_" + pname, gstarts, setter_ops=gops, refs=["/x", "//9.9.9.9", "?q"], depth=3, nh=2, clone=True, popts='OptsOf("%s")' % pname)
         mod = fam.write(run.scratch)
@@ -318,6 +318,10 @@ def sp_families(run):
                   invariants=("ListRoundTrip",)),
         ApiFamily("sp_closure", ["http://h/?b=2&a=1&b=3", "x:o?a=1"], sp_ops=sp_ops(names[:3], values[:2], with_iter=False), mode="closure", invariants=("ListRoundTrip",)),
     ]
+    # duplicates whose first (or a later) occurrence already holds the value that is set: Set must still drop the other occurrences
+    fams.append(ApiFamily("sp_set_same", ["http://h/?a=1&b=2&a=3&a=1", "x:o?k=&k=v&k=", "http://h/?a=%31&a=2"],
+                          sp_ops=[("set", "a", "1"), ("set", "a", "3"), ("set", "k", ""), ("set", "k", "v"), ("set", "b", "2"), ("append", "a", "1"), ("append", "k", ""), ("delete", "b", "")],
+                          read_ops=[("getall", "a"), ("getall", "k"), ("get", "a")], depth=3, invariants=("ListRoundTrip",)))
     if not q:   # three operations deep over a seed-chosen sub-alphabet (duplicate names arise from the starts and from append)
         fams.append(ApiFamily("sp_d3_sub", SP_STARTS, sp_ops=sp_ops(names[:3], values[:2]), read_ops=[(o, n) for o in ("get", "getall", "has") for n in names[:3]], depth=4,
                               invariants=("ListRoundTrip",), maxlist=8))
@@ -406,7 +410,7 @@ def check_c13(run):
             setters.append(extra)
     starts = ["http://u:p@h:8/a/b?q=1#f", "x://h/a?b=2", "file:///C:/d?x", "m:o?a=1", "m:o  #f", "m:o  ?q#f", "http://h/p?#", "x://@h?"]   # incl. empty-but-present components
     fams = [
-        ApiFamily("indep_d3", starts, setter_ops=setters, sp_ops=sp_ops(names, values, with_sort=False) + [("sort", "", ""), ("iterappend", "", "z"), ("iterfirst", "", "w")], refs=["x", "?n=1", "#g", "//o/p?r"],
+        ApiFamily("indep_d3", starts, setter_ops=setters, sp_ops=sp_ops(names, values, with_sort=False) + [("sort", "", ""), ("iterappend", "", "z"), ("iterfirst", "", "w")], refs=["x", "?n=1", "#g", "//o/p?r", "http:n", "http:#k", "file:n"],     # incl. references that repeat the base's scheme and are otherwise relative
                   depth=3 if q else 4, nh=3, clone=True, properties=("Independence",),
                   xfer_ops=[("copy", "c", "d"), ("live", "", ""), ("fresh", "n", "1")], det_ops=[("append", "x", "y"), ("sort", "", "")]),
     ]
@@ -895,6 +899,8 @@ def opt_families(run):
         Family("optquery", "&=a+'\"|~%b", 2 if q else 4, prefixes=["http://h/?", "x://h/?", "http://h/?b=2&a=1&"], suffixes=["", "#f|~\""], invariants=inv),
         Family("optraw", [0x110080, 0x1100FF, ord(L), ord("/"), ord("%"), ord(".")], 3 if q else 4, prefixes=["http://h/", "http://", "x:"], invariants=["PtrOk"]),
         Family("optnoscheme", L + "./:@?#", 3 if q else 4, prefixes=["", "h", "//"], invariants=inv),
+        # ports of added special schemes (gopher: default 70; ipfs: no default port, so not even port 0 is elided) next to http and a non-special scheme
+        Family("optspecialport", "0:78/", 3 if q else 4, prefixes=["ipfs://h", "gopher://h", "http://h", "x://h", "ipfs://h:0", "ipfs:"], invariants=["PtrOk"]),
         # references against bases with an opaque path (a relative reference fails there for a reason other than a missing scheme of the input)
         Family("optopaquebase", L + "./:?#", 2 if q else 3, bases=["m:o?q#f", "x:80", "localhost:8080"], nobase=False, invariants=["PtrOk"]),
         # long queries with duplicate names (sort stability only shows beyond a dozen pairs)
@@ -1002,7 +1008,10 @@ def canon_family(run, name, mode, k, big):
         return w not in (".", "..")
     segs = [w for w in [word(1), word(2), "a~", "-_"] if okword(w)]
     schemes = r.sample(["http", "https", "ftp", "ws", "wss"], 3 if big else 2)
-    hosts = r.sample(["h", "a-b.c0", "example.com", "1.2.3.4", "[::1]", "x1.y-2.z"], 3 if big else 2)
+    hosts = r.sample(["h", "a-b.c0", "example.com", "1.2.3.4", "[::1]", "x1.y-2.z", "[2001:db8::a]"], 3 if big else 2)
+    if name.startswith("classes"):
+        # class families always hold a domain with letters and an IPv6 literal with hex letters, in that order: the letter case of a host covers both
+        hosts = [r.choice(["a-b.c0", "example.com", "x1.y-2.z"]), "[2001:db8::a]"] + [h for h in hosts if not h.startswith("[")][:max(0, len(hosts) - 2)]
     creds = r.sample([[], ["u"], ["u", "p"], ["", "p"]], 2)
     ports = [[], [r.choice(["8", "8080", "0", "65535"])]]
     return CanonFamily(name, mode, schemes, creds, hosts, ports, r.sample(segs, 2), 2, [word(1), ""], [word(2), ""], 1 if not big else 2, [word(2)], k,
@@ -1091,7 +1100,7 @@ def check_c18(run):
         gf.values = gf.values[:1]
         if small:
             gf.maxsegs = 1
-            gf.creds, gf.hosts = gf.creds[:1], gf.hosts[:1]
+            gf.creds, gf.hosts = gf.creds[:1], gf.hosts[:2]
         mod = gf.write(run.scratch)
         bad, n = run.tlc_events(mod, gf.name, "class", cfg=mod + ".cfg", chunks=14, events_args=["--names", ",".join(profs)], timeout=1800)
         run.samples.append("[%s] %d class events: every abstract URL of the grammar x all combinations of up to %d variations x %d profiles" % (gf.name, n, gf.k, len(profs)))
